@@ -180,6 +180,49 @@ def build_extract(w):
         hints={'var_types': {'outer_mapping': 'Opt[Map[str,int]]'}})
     return w
 
+def build_registry(w):
+    """H (scoping, the registry every column reference is resolved through): pathctx.put_path_var / put_path_var_if_not_exists -- a (path, aspect) of a relation is bound at
+    most once unless the caller forces it: a second registration is refused (KeyError) and changes nothing, `_if_not_exists` keeps the first binding, every other entry and
+    every other relation are untouched.  The namespace is a dict held by reference (the function stores through a local alias)."""
+    w.refdict('NSD', 'Map[Tuple[PathId,Aspect],Obj]')
+    w.refclass('Rel', {'path_namespace': 'NSD', 'packed_path_namespace': 'Opt[NSD]'})
+    NS = 'rel.path_namespace'
+    PUT = ['(path_id, aspect) in %s and %s[(path_id, aspect)] == var' % (NS, NS), 'map_same_except(%s.m, old(%s.m), (path_id, aspect))' % (NS, NS), 'heap_same_except("NSD.m", %s)' % NS]
+    SAME = ['map_same(%s.m, old(%s.m))' % (NS, NS), 'heap_same("NSD.m")']
+    w.contract(PATHCTX, 'put_path_var', params={'rel': 'Rel', 'path_id': 'PathId', 'var': 'Obj', 'aspect': 'Aspect', 'flavor': 'str', 'force': 'bool'}, returns='none',
+        requires=['flavor != "packed"'], modifies=['NSD.m'],
+        ensures=PUT + ['force or not old((path_id, aspect) in %s)' % NS],
+        raises={'KeyError': dict(only_if='(path_id, aspect) in rel.path_namespace and not force', ensures=SAME)})
+    w.contract(PATHCTX, 'put_path_var_if_not_exists', params={'rel': 'Rel', 'path_id': 'PathId', 'var': 'Obj', 'flavor': 'str', 'aspect': 'Aspect'}, returns='none',
+        requires=['flavor != "packed"'], modifies=['NSD.m'],
+        ensures=['implies(old((path_id, aspect) in %s), %s)' % (NS, ' and '.join(SAME)), 'implies(not old((path_id, aspect) in %s), %s)' % (NS, ' and '.join(PUT))],
+        hints={'use_contract': ['put_path_var']})
+    # range variables registered for a path: put / put-if-absent / lookups (an IDENTITY lookup falls back to the VALUE binding; a missing binding is a LookupError, never a
+    # range variable of another path)
+    w.refdict('RVD', 'Map[Tuple[PathId,Aspect],Obj]')
+    w.class_src['PathId'] = ('edb/ir/pathid.py', 'PathId')      # (so that `assert isinstance(path_id, irast.PathId)` is decided: values of this type are PathIds)
+    w.refclass('Stm', {'path_rvar_map': 'RVD', 'path_packed_rvar_map': 'Opt[RVD]'})
+    w.ext_methods['Stm.get_rvar_map'] = dict(params={'flavor': 'str'}, returns='RVD', requires=['flavor == "normal"'], returns_expr='self.path_rvar_map')
+    w.ext_methods['Stm.maybe_get_rvar_map'] = dict(params={'flavor': 'str'}, returns='Opt[RVD]', requires=['flavor == "normal"'], returns_expr='self.path_rvar_map')
+    w.trusted.append('pgast.Query.get_rvar_map / maybe_get_rvar_map (flavor normal) return the statement\'s own path_rvar_map dict')
+    RV = 'stmt.path_rvar_map'
+    RPUT = ['(path_id, aspect) in %s and %s[(path_id, aspect)] == rvar' % (RV, RV), 'map_same_except(%s.m, old(%s.m), (path_id, aspect))' % (RV, RV), 'heap_same_except("RVD.m", %s)' % RV]
+    RSAME = ['map_same(%s.m, old(%s.m))' % (RV, RV), 'heap_same("RVD.m")']
+    PRM = {'stmt': 'Stm', 'path_id': 'PathId', 'rvar': 'Obj', 'flavor': 'str', 'aspect': 'Aspect'}
+    w.contract(PATHCTX, 'put_path_rvar', params=PRM, returns='none', requires=['flavor == "normal"'], modifies=['RVD.m'], ensures=RPUT, raises={'AssertionError': dict(ensures=RSAME)})
+    w.contract(PATHCTX, 'put_path_rvar_if_not_exists', params=PRM, returns='none', requires=['flavor == "normal"'], modifies=['RVD.m'],
+        ensures=['implies(old((path_id, aspect) in %s), %s)' % (RV, ' and '.join(RSAME)), 'implies(not old((path_id, aspect) in %s), %s)' % (RV, ' and '.join(RPUT))],
+        raises={'AssertionError': dict(ensures=RSAME)}, hints={'use_contract': ['put_path_rvar']})
+    LK = {'stmt': 'Stm', 'path_id': 'PathId', 'aspect': 'Aspect', 'flavor': 'str'}
+    FOUND = ('((path_id, aspect) in %s and result_v == %s[(path_id, aspect)]) or (not ((path_id, aspect) in %s) and aspect == Aspect.IDENTITY and (path_id, Aspect.VALUE) in %s '
+             'and result_v == %s[(path_id, Aspect.VALUE)])' % (RV, RV, RV, RV, RV))
+    MISSING = 'not ((path_id, aspect) in %s) and not (aspect == Aspect.IDENTITY and (path_id, Aspect.VALUE) in %s)' % (RV, RV)
+    w.contract(PATHCTX, 'maybe_get_path_rvar', params=LK, returns='Opt[Obj]', requires=['flavor == "normal"'],
+        ensures=['implies(not is_none(result), %s)' % FOUND.replace('result_v', 'some(result)'), 'implies(is_none(result), %s)' % MISSING])
+    w.contract(PATHCTX, 'get_path_rvar', params=LK, returns='Obj', requires=['flavor == "normal"'],
+        ensures=[FOUND.replace('result_v', 'result')], raises={'LookupError': dict(only_if=MISSING)}, hints={'use_contract': ['maybe_get_path_rvar']})
+    return w
+
 def build():
     w = World('C13')
     w.refclass('Obj', {}, universal=True)
@@ -289,6 +332,7 @@ def build():
                  'implies(hint == "", H == "v")', 'str_prefixof(H, hint) or hint == ""'])
     build_setop(w)
     build_extract(w)
+    build_registry(w)
     return w
 
 def scenarios(tier, seed, repo_root, outdir):
